@@ -391,6 +391,9 @@ func initStubs() {
 		e.unroll = int(n)
 		return ret(st)
 	}
+	stubTable[zzp+"Native"] = func(e *Exec, st *State, fn *Func, args []Value, site string) []Outcome {
+		return ret(st, False) // true only in the natively compiled replay (environment set-up that the encoding stubs out)
+	}
 	stubTable[zzp+"Thorough"] = func(e *Exec, st *State, fn *Func, args []Value, site string) []Outcome {
 		return ret(st, BoolConst(e.cfg["tier"] == "thorough"))
 	}
